@@ -9,17 +9,25 @@ from nvlib.check import Prop
 WRAP = ["-Wl,--wrap=epoll_wait", "-Wl,--wrap=time", "-Wl,--wrap=platform_timer_start"]
 RESET_DURATION = 2           # ResetDuration: next_reset = now + 1 + rand() % 1 is deterministic
 HEAD = ["load reg /c09/reg"]
+PLAIN_MARK = "# plain"
 TAIL = ["step idle", "step idle", "step idle", "step idle", "step tick:40", "step tick:40", "step idle", "step idle"]
 
 
 class C09(Prop):
     id = "C09"
     title = "No event history or failing task takes the driver down"
-    lean_modules = ["NV.C09.Props", "NV.C09.Witness", "NV.C09.Bridge", "NV.C09.SpecNeg"]
+    lean_modules = ["NV.C09.Props", "NV.C09.Witness", "NV.C09.Bridge", "NV.C09.SpecNeg", "NV.C09.BatchThms"]
     theorems = ["NV.C09.backend_order_as_modelled", "NV.C09.error_handler_order_as_modelled",
                 "NV.C09.call_out_order_as_modelled", "NV.C09.sweep_order_as_modelled",
                 "NV.C09.remove_interactive_order_as_modelled", "NV.C09.user_command_order_as_modelled",
-                "NV.C09.connect_order_as_modelled", "NV.C09.judge_crash_clause", "NV.C09.judge_report_clause", "NV.C09.judge_exit_present", "NV.C09.judge_cycles_clause", "NV.C09.runFull_block",
+                "NV.C09.connect_order_as_modelled", "NV.C09.hb_remove_as_modelled", "NV.C09.hb_round_as_modelled",
+                "NV.C09.sweep_tests_as_modelled", "NV.C09.cursor_as_modelled", "NV.C09.backend_loop_as_modelled",
+                "NV.C09.slot_search_as_modelled", "NV.C09.process_io_as_modelled", "NV.C09.remove_tests_as_modelled",
+                "NV.C09.apply_sites_as_modelled", "NV.C09.guards_present",
+                "NV.C09.batch_any_order_good", "NV.C09.stale_event_skipped", "NV.C09.freed_record_events_are_stale",
+                "NV.C09.accept_serial_fresh", "NV.C09.applyAction_resolved", "NV.C09.pending_entry_older_than_any_accept",
+                "NV.C09.abandoned_suffix", "NV.C09.abandoned_nil_of_ok", "NV.C09.findConn_id",
+                "NV.C09.judge_crash_clause", "NV.C09.judge_report_clause", "NV.C09.judge_exit_present", "NV.C09.judge_cycles_clause", "NV.C09.runFull_block",
                 "NV.C09.backend_total", "NV.C09.backend_total_prefix", "NV.C09.freed_conn_never_used_run",
                 "NV.C09.hooks_keep_invariant", "NV.C09.runHook_ok", "NV.C09.errorHandler_same", "NV.C09.cmh_flags",
                 "NV.C09.only_failing_hb_removed", "NV.C09.error_keeps_other_heart_beats",
@@ -155,7 +163,7 @@ class C09(Prop):
         orders["removeInteractiveOrder"] = order(b, [
             ("test_closing", r"if \(ip->iflags & CLOSING\)"), ("set_closing", r"ip->iflags \|= CLOSING"),
             ("net_dead", r"safe_apply \(APPLY_NET_DEAD"), ("shutdown", r"g_proceeding_shutdown\+\+"),
-            ("free", r"FREE \(ip\)"), ("clear_pointer", r"ob->interactive = 0;"),
+            ("clear_pending", r"g_io_events\[idx\]\.context = 0;"), ("free", r"FREE \(ip\)"), ("clear_pointer", r"ob->interactive = 0;"),
             ("clear_slot", r"all_users\[idx\] = 0;"), ("free_object", r"free_object \(ob, \"remove_interactive\"\)")])
         b = body_of(comm, r"\nint process_user_command \(\)\s*\{")
         if b is None:
@@ -172,6 +180,87 @@ class C09(Prop):
             ("unsafe_connect", r"[^_]apply_master_ob \(APPLY_CONNECT"), ("rejected", r"return 0;"),
             ("bind", r"ob->interactive = master_ob->interactive;"), ("clear_master", r"master_ob->interactive = 0;"),
             ("free_master", r"free_object \(master_ob"), ("add_ref_user", r"add_ref \(ob")])
+        # ---- decisive comparisons / loop bounds / index updates, regenerated as normalised source text ----
+        def conds_and_updates(body, idents):
+            """all if/while/for headers that mention one of `idents` and all assignments / ++ / -- of them, in source order"""
+            hits = []
+            for m in re.finditer(r"\b(if|while|for)\s*\(", body):
+                depth, j = 0, m.end() - 1
+                while j < len(body):
+                    if body[j] == "(":
+                        depth += 1
+                    elif body[j] == ")":
+                        depth -= 1
+                        if depth == 0:
+                            break
+                    j += 1
+                text = re.sub(r"\s+", " ", body[m.start():j + 1]).strip()
+                if any(re.search(r"\b%s\b" % re.escape(i), text) for i in idents):
+                    hits.append((m.start(), text))
+            upd = r"(?:(?:\+\+|--)\s*(?:%(i)s)\b|\b(?:%(i)s)\s*(?:\+\+|--)|\b(?:%(i)s)\s*(?:[-+|&]?=(?!=))[^;]*)\s*;" % {"i": "|".join(re.escape(i) for i in idents)}
+            for m in re.finditer(upd, body):
+                # not the ones inside an if/for header (already listed)
+                pre = body[:m.start()]
+                if pre.count("(") - pre.count(")") > 0:
+                    continue
+                hits.append((m.start(), re.sub(r"\s+", " ", m.group(0)).strip()))
+            return [t for _, t in sorted(hits)]
+
+        cmp_sites = {}
+        b = body_of(back, r"\nint set_heart_beat \(object_t \* ob, int to\)\s*\{")
+        if b is None:
+            raise X.TieBroken("set_heart_beat()", "cannot locate set_heart_beat()")
+        cmp_sites["hbRemoveStmts"] = conds_and_updates(b, ["heart_beat_index", "num_hb_to_do"])
+        b = body_of(back, r"\nstatic void call_heart_beat \(\)\s*\{")
+        if b is None:
+            raise X.TieBroken("call_heart_beat()", "cannot locate call_heart_beat()")
+        cmp_sites["hbRoundStmts"] = conds_and_updates(b, ["heart_beat_index", "num_hb_to_do", "current_heart_beat"])
+        b = body_of(back, r"\nstatic void look_for_objects_to_swap \(\)\s*\{")
+        cmp_sites["sweepStmts"] = conds_and_updates(b, ["next_time", "next_reset", "O_RESET_STATE"])
+        b = body_of(comm, r"\nstatic char\* get_user_command \(\)\s*\{")
+        if b is None:
+            raise X.TieBroken("get_user_command()", "cannot locate get_user_command()")
+        cmp_sites["cursorStmts"] = conds_and_updates(b, ["s_next_user", "max_users", "HAS_CMD_TURN"])
+        b = body_of(back, r"\nvoid backend \(\)\s*\{")
+        cmp_sites["backendLoopStmts"] = conds_and_updates(b, ["connected_users", "HAS_CMD_TURN", "startup_step"])
+        b = body_of(comm, r"\nvoid new_interactive \(socket_fd_t socket_fd\)\s*\{")
+        if b is None:
+            raise X.TieBroken("new_interactive()", "cannot locate new_interactive()")
+        cmp_sites["slotSearchStmts"] = conds_and_updates(b, ["max_users", "new_max_users"])
+        b = body_of(comm, r"\nvoid process_io \(\)\s*\{")
+        if b is None:
+            raise X.TieBroken("process_io()", "cannot locate process_io()")
+        cmp_sites["processIoStmts"] = conds_and_updates(b, ["g_num_io_events", "O_DESTRUCTED", "EVENT_CLOSE", "all_users"])
+        b = body_of(comm, r"\nvoid remove_interactive \(object_t \* ob, int dested\)\s*\{")
+        cmp_sites["removeStmts"] = conds_and_updates(b, ["g_num_io_events", "g_io_events", "CLOSING", "dested", "max_users", "all_users"])
+
+        # ---- inventory of the driver-initiated apply sites of the event loop (protected or not) ----
+        def apply_sites(fname, src):
+            txt = re.sub(r"/\*.*?\*/", lambda m: re.sub(r"[^\n]", " ", m.group(0)), src, flags=re.S)
+            txt = re.sub(r"//[^\n]*", "", txt)
+            funcs = [(m.start(), m.group(1)) for m in re.finditer(r"^(?:[A-Za-z_][\w \t\*]*?[ \*])?([A-Za-z_]\w*)[ \t]*\([^;{}]*\)[ \t]*\{?[ \t]*$", txt, flags=re.M)
+                     if m.group(1) not in ("if", "for", "while", "switch", "return", "sizeof", "defined")]
+            out = []
+            rx = r"(?<![\w])(safe_apply_master_ob|apply_master_ob|safe_apply|apply|safe_call_function_pointer|call_function_pointer|call_function)\s*\(\s*([A-Za-z_][\w\.\->\[\]]*)"
+            for m in re.finditer(rx, txt):
+                line_start = txt.rfind("\n", 0, m.start()) + 1
+                if txt[line_start:m.start()].lstrip().startswith("#"):
+                    continue
+                if re.match(r"[ \t]*\([^;{}]*\)[ \t]*\{?[ \t]*$", txt[m.end(1):txt.find("\n", m.end(1))]) and line_start == m.start():
+                    continue        # a definition
+                fn = "?"
+                for pos, name in funcs:
+                    if pos <= m.start():
+                        fn = name
+                if fn == m.group(1):
+                    continue
+                out.append("%s:%s:%s:%s" % (fname, fn, m.group(1), m.group(2)))
+            return out
+
+        sites = []
+        for fname, src in (("backend.c", back), ("error_context.c", ec), ("comm.c", comm), ("call_out.c", co)):
+            sites += apply_sites(fname, src)
+        cmp_sites["applySites"] = sites
         # shape guards of the repaired code: the model mirrors these forms
         guards = [
             (r"if\s*\(\s*all_users\s*&&\s*all_users\s*\[\s*0\s*\]\s*\)\s*\n\s*flush_message", comm, "process_io:all_users guard"),
@@ -180,6 +269,8 @@ class C09(Prop):
              back, "backend:recovery point before the start-up steps"),
             (r"if\s*\(\s*duration\s*<\s*0\s*\)", back, "update_load_av:clamp"),
             (r"ret\s*=\s*safe_apply_master_ob\s*\(\s*APPLY_CONNECT", back, "mudlib_connect:connect under its own recovery point"),
+            (r"for\s*\(idx = 0; idx < g_num_io_events; idx\+\+\)\s*\n\s*if\s*\(g_io_events\[idx\]\.context == ip\)\s*\n\s*g_io_events\[idx\]\.context = 0;[^}]*?FREE \(ip\);",
+             comm, "remove_interactive:pending events of the freed record cleared"),
         ]
         flags = []
         for rx, src, name in guards:
@@ -191,6 +282,10 @@ class C09(Prop):
         for name, lst in orders.items():
             t += "/-- statement order regenerated from the source (see props/c09.py gen_extra) -/\ndef %s : List String :=\n  [%s]\n\n" % (
                 name, ", ".join('"%s"' % x for x in lst))
+        for name, lst in cmp_sites.items():
+            t += "/-- normalised source text regenerated from the C code (see props/c09.py gen_extra) -/\ndef %s : List String :=\n  [%s]\n\n" % (
+                name, ",\n   ".join('"%s"' % x.replace("\\", "\\\\").replace('"', '\\"') for x in lst))
+        t += "/-- all source shapes of the repaired code are present -/\ndef guardsPresent : List Nat := [%s]\n\n" % ", ".join(str(v) for _, v in flags)
         for name, v in flags:
             ident = re.sub(r"[^A-Za-z0-9]", "_", name)
             t += "/-- source shape: %s (1 = present) -/\ndef guard_%s : Nat := %d\n\n" % (name, ident, v)
@@ -198,6 +293,9 @@ class C09(Prop):
 
     def prepare(self, ctx):
         self.exe = E.compile_harness("c09", [os.path.join(E.VERIF, "harness/c09/c09.c")], extra=WRAP)
+        # second build WITHOUT sanitizers: ASan never hands a freed address out again (quarantine), the C library's
+        # allocator does so at once - address reuse of connection records is only observable there
+        self.exe_plain = E.compile_harness("c09", [os.path.join(E.VERIF, "harness/c09/c09.c")], kind="plain", extra=WRAP)
         self.conf = E.make_mudlib(ctx.rundir, master="/c09/master.c",
                                   extra_conf="ResetDuration %d\nCleanupDuration 0\n" % RESET_DURATION)
 
@@ -206,6 +304,15 @@ class C09(Prop):
         out = {}
         for i in range(0, len(cases), 60):
             out.update(E.run_harness(self.exe, self.conf, cases[i:i + 60], ctx.rundir, args=["--timeout", "40"]))
+        # cases marked `# plain` run a second time on the build without sanitizers (real allocator: a freed
+        # connection record's address is reused by the next accept).  Its trace is the one that is compared and
+        # judged, unless the sanitizer run already shows a crash.
+        plain = [c for c in cases if PLAIN_MARK in c.lines]
+        for i in range(0, len(plain), 60):
+            res = E.run_harness(self.exe_plain, self.conf, plain[i:i + 60], ctx.rundir, args=["--timeout", "40"])
+            for cid, tr in res.items():
+                if not any(l.startswith(("crash", "sanitizer")) for l in out.get(cid, [])):
+                    out[cid] = tr
         return out
 
     # ---- boundary set ---------------------------------------------------------
@@ -263,6 +370,26 @@ class C09(Prop):
                                               "script u1 cmd:o meh:ok;err", "script u1 cmd:e err", "step conn:c1",
                                               "step send:c1:e/r/e/", "step send:c1:c/e/o/e/", "step idle", "step idle",
                                               "step idle", "step idle"])
+        # several events reported by ONE poll, delivered in the order written (the harness sorts what epoll returned)
+        mk("batch-stale-event-reused-record", [
+            PLAIN_MARK, "mode net", "script u2 netdead dest:u1", "step conn:c1", "step conn:c2", "step send:c1:a/",
+            "step send:c2:b/", "step close:c2 conn:c3 reset:c1", "step send:c3:x/", "step send:c3:y/"])
+        mk("batch-stale-data-reused-record", [
+            PLAIN_MARK, "mode net", "script u2 netdead dest:u1", "step conn:c1", "step conn:c2",
+            "step reset:c2 conn:c3 send:c1:lost/", "step send:c3:x/"])
+        for i, perm in enumerate([("conn:c3", "send:c1:p/", "close:c2"), ("conn:c3", "close:c2", "send:c1:p/"),
+                                  ("send:c1:p/", "conn:c3", "close:c2"), ("send:c1:p/", "close:c2", "conn:c3"),
+                                  ("close:c2", "conn:c3", "send:c1:p/"), ("close:c2", "send:c1:p/", "conn:c3")]):
+            mk("batch-perm-%d" % i, [
+                PLAIN_MARK, "mode net", "script u2 netdead dest:u1;err", "script u3 logon dest:u1", "script u1 netdead err",
+                "step conn:c1", "step conn:c2", "step send:c1:a/ send:c2:b/", "step " + " ".join(perm) + " tick",
+                "step send:c3:x/", "step idle"])
+        mk("batch-console-and-network", ["mode console", "script u1 cmd:boom err", "step conn:c1", "step conn:c2",
+                                         "step send:c1:a/ cin:boom/ reset:c2 tick", "step cin:b/ conn:c3 send:c1:c/",
+                                         "step close:c1 cin:d/ send:c3:e/"])
+        mk("batch-logon-error-abandons-rest", [
+            "mode net", "script u3 logon err", "step conn:c1", "step conn:c2", "step conn:c3 send:c1:a/ close:c2",
+            "step idle", "step send:c1:b/"])
         mk("connect-rejected", ["mode net", "script k1 connect rej", "step conn:c1", "step conn:c2", "step send:c2:a/"])
         return B
 
@@ -279,6 +406,8 @@ class C09(Prop):
             "wrong-command-run": pre + ["t input u1 a", "t cmd u1 zzz", "cycle 3", "t input u1 b", "t cmd u1 b"] + tail,
             "refs-unbalanced": pre + ["t input u1 a", "t cmd u1 a", "cycle 3", "t input u1 b", "t cmd u1 b",
                                       "exit loop", 'hbs ""', "refs 1 0", "slots 1", "slotidx 1"],
+            "user-disconnected-by-the-driver": pre + ["t input u1 a", "t cmd u1 a", "cycle 3", "t input u1 b", "t cmd u1 b",
+                                                "cycle 4", "t netdead u1", "exit loop", 'hbs ""', "refs 0 0", "slots 0", "slotidx"],
             "sanitizer-line": pre + ["sanitizer ERROR: AddressSanitizer: heap-use-after-free"] + tail,
         }
         good = pre + ["t input u1 a", "t cmd u1 a", "cycle 3", "t input u1 b", "t cmd u1 b"] + tail
@@ -357,8 +486,17 @@ class C09(Prop):
         open_c = []
         nconn = 0
         sent = {}
+        quiet_next = False
+        batch = False
+        later_open = []
         for _ in range(rng.range(5, 22)):
             acts = []
+            open_c += later_open
+            later_open = []
+            if quiet_next:
+                quiet_next = False
+                lines.append("step " + rng.weighted([("idle", 3), ("tick", 2)]))
+                continue
             k = rng.weighted([("conn", 4 if nconn < nusers + 1 else 0), ("send", 9 if open_c else 0), ("close", 2 if open_c else 0),
                               ("cin", 6 if console else 0), ("idle", 2), ("none", 3)])
             if k == "conn":
@@ -374,39 +512,66 @@ class C09(Prop):
             elif k == "close":
                 c = rng.choice(open_c)
                 open_c.remove(c)
-                acts.append("close:c%d" % c)
+                acts.append("%s:c%d" % (rng.weighted([("close", 3), ("reset", 2)]), c))
             elif k == "cin":
                 t = self.gen_text(rng, verbs, partial_ok=False)
                 sent[0] = sent.get(0, 0) + t.count("/")
                 acts.append("cin:" + t)
             elif k == "idle":
                 acts.append("idle")
-            # several events reported by one poll: a second I/O action on ANOTHER client in the same step
-            # (only input + input: buffering two connections commutes, so the kernel's event order cannot matter;
-            #  an accept or a close can run LPC code, which makes the order observable)
-            if acts and k in ("send", "cin") and rng.chance(25, 100):
-                busy = set(int(a.split(":")[1][1:]) for a in acts if a.split(":")[0] in ("send", "close", "conn"))
-                others = [c for c in open_c if c not in busy]
-                k2 = rng.weighted([("send", 6 if others else 0), ("cin", 3 if console and k != "cin" else 0), ("none", 1)])
-                if k2 == "send":
-                    c = rng.choice(others)
-                    t = self.gen_text(rng, verbs)
-                    sent[c] = sent.get(c, 0) + t.count("/")
-                    acts.append("send:c%d:%s" % (c, t))
-                elif k2 == "close":
-                    c = rng.choice(others)
-                    open_c.remove(c)
-                    acts.append("close:c%d" % c)
-                elif k2 == "cin":
-                    t = self.gen_text(rng, verbs, partial_ok=False)
-                    sent[0] = sent.get(0, 0) + t.count("/")
-                    acts.append("cin:" + t)
+            # several events reported by ONE poll, in every order (the harness delivers them in the order written):
+            # accept / data / end-of-file / reset (hang-up) / console line on DISTINCT connections that were open
+            # before this step - one descriptor yields one event per poll
+            if k in ("send", "cin", "conn", "close") and rng.chance(30, 100):
+                busy = set(int(a.split(":")[1][1:]) for a in acts if a.split(":")[0] in ("send", "close", "conn", "reset"))
+                for _ in range(rng.weighted([(1, 5), (2, 3), (3, 1)])):
+                    others = [c for c in open_c if c not in busy]
+                    k2 = rng.weighted([("send", 6 if others else 0), ("close", 2 if others else 0), ("reset", 3 if others else 0),
+                                       ("conn", 3 if (nconn < nusers + 2 and not any(a.startswith("conn") for a in acts)) else 0),
+                                       ("cin", 3 if console and not any(a.startswith("cin") for a in acts) else 0), ("none", 1)])
+                    if k2 == "send":
+                        c = rng.choice(others)
+                        t = self.gen_text(rng, verbs)
+                        sent[c] = sent.get(c, 0) + t.count("/")
+                        acts.append("send:c%d:%s" % (c, t))
+                        busy.add(c)
+                    elif k2 in ("close", "reset"):
+                        c = rng.choice(others)
+                        open_c.remove(c)
+                        acts.append("%s:c%d" % (k2, c))
+                        busy.add(c)
+                    elif k2 == "conn":
+                        acts.append("conn:c%d" % nextc)
+                        busy.add(nextc)
+                        later_open.append(nextc)
+                        nextc += 1
+                        nconn += 1
+                    elif k2 == "cin":
+                        t = self.gen_text(rng, verbs, partial_ok=False)
+                        sent[0] = sent.get(0, 0) + t.count("/")
+                        acts.append("cin:" + t)
+                rng.shuffle(acts)
+                # an error in logon() leaves process_io() by longjmp: the events behind the accept are reported again
+                # by the next poll (level-triggered).  Console completions are not (the doorbell is not rung again):
+                # a console line never follows an accept in a batch; and the step after such a batch is quiet, so the
+                # re-reported events are not mixed with new ones on the same descriptors
+                ci = [i for i, a in enumerate(acts) if a.startswith("conn")]
+                if ci and any(a.startswith("cin") for a in acts[ci[0]:]):
+                    a = acts.pop(ci[0])
+                    acts.append(a)
+                    ci = [len(acts) - 1]
+                if ci and ci[0] != len(acts) - 1:
+                    quiet_next = True
+                if len(acts) > 1:
+                    batch = True
             if rng.chance(35, 100) or not acts:
                 acts.append(rng.weighted([("tick", 12), ("tick:1", 3), ("tick:5", 2), ("tick:1000", 2)]))
             lines.append("step " + " ".join(acts))
         # settle: one buffered line is served per user and cycle, so drain the longest backlog before the closing ticks
         drain = ["step idle"] * max(0, max(list(sent.values()) + [0]) - 3)
-        return E.Case(cid, HEAD + lines + drain + TAIL + ["run"], {"origin": "generated"})
+        # batches run on the build without sanitizers as well (address reuse of freed connection records)
+        mark = [PLAIN_MARK] if batch and rng.chance(50, 100) else []
+        return E.Case(cid, HEAD + mark + lines + drain + TAIL + ["run"], {"origin": "generated"})
 
     def gen_text(self, rng, verbs, partial_ok=True):
         n = rng.weighted([(1, 6), (2, 3), (3, 1)])
